@@ -236,7 +236,7 @@ func Flush() {
 		names = append(names, n)
 	}
 	sort.Strings(names)
-	var out []outRec
+	out := []outRec{}
 	for _, n := range names {
 		r := reg[n]
 		r.mu.Lock()
